@@ -1265,3 +1265,109 @@ func TestC19KnownOutputThroughStruct(t *testing.T) {
 		}
 	}
 }
+
+// TestC19Combined: several edits requested in one mro edit run give what the
+// same edits give when they are requested one run after the other (the tool
+// applies them in a fixed order: callable renames, input renames, output
+// renames, ...).  A rename of a callable - possibly called through an alias -
+// is combined with a rename of one of its inputs or outputs under the new
+// name.
+func TestC19Combined(t *testing.T) {
+	root := os.Getenv("VERIF_WORK")
+	if root == "" {
+		root = os.TempDir()
+	}
+	path := filepath.Join(root, "c19c.mro")
+	rapid.Check(t, func(t *rapid.T) {
+		prog := mrogen.GenProgram(t, c19Cfg())
+		src := prog.Source(nil)
+		if _, _, err := callGraphJSON(src, path); err != nil {
+			t.Fatalf("GENERATOR: %v\n%s", err, src)
+		}
+		reach := reachable(prog)
+		var names []string
+		for n := range reach {
+			if n != "PF0" {
+				names = append(names, n)
+			}
+		}
+		sort.Strings(names)
+		if len(names) == 0 {
+			return
+		}
+		target := rapid.SampledFrom(names).Draw(t, "callable")
+		ins, outs, _ := prog.Callable(target)
+		newName := target + "_NEW"
+		first := refactoring.RefactorConfig{Rename: []refactoring.Rename{{Callable: target, NewName: newName}}}
+		var second refactoring.RefactorConfig
+		kind := rapid.SampledFrom([]string{"rename-input", "rename-output"}).Draw(t, "second")
+		param := ""
+		switch kind {
+		case "rename-input":
+			if len(ins) == 0 {
+				return
+			}
+			param = ins[rapid.IntRange(0, len(ins)-1).Draw(t, "param")].Name
+			if inputBoundByWildcard(prog, target, param) {
+				stats.Count("C19", "excluded:rename-input-through-wildcard", 1)
+				return
+			}
+			second.RenameInParam = []refactoring.RenameParam{{CallableParam: refactoring.CallableParam{Callable: newName, Param: param}, NewName: param + "_new"}}
+		default:
+			if len(outs) == 0 {
+				return
+			}
+			if usesStructOfCallable(prog, target) {
+				stats.Count("C19", "excluded:output-edit-through-struct-value", 1)
+				return
+			}
+			param = outs[rapid.IntRange(0, len(outs)-1).Draw(t, "param")].Name
+			second.RenameOutParam = []refactoring.RenameParam{{CallableParam: refactoring.CallableParam{Callable: newName, Param: param}, NewName: param + "_new"}}
+		}
+		both := first
+		both.RenameInParam, both.RenameOutParam = second.RenameInParam, second.RenameOutParam
+		describe := func() string {
+			return fmt.Sprintf("rename %s to %s and %s %s.%s in one run\n--- original\n%s", target, newName, kind, newName, param, src)
+		}
+		step1, _, _, err := applyEditAst(src, path, first)
+		if err != nil {
+			fail(t, "C19", "edit-failed:rename-callable", "%v\n%s", err, describe())
+		}
+		twoRuns, _, _, err := applyEditAst(step1, path, second)
+		if err != nil {
+			fail(t, "C19", "edit-failed:"+kind, "second run: %v\n%s", err, describe())
+		}
+		j2, ast2, err := callGraphJSON(twoRuns, path)
+		if err != nil {
+			// (the single edits are TestC19Refactor's business)
+			stats.Count("C19", "combined_two_runs_do_not_compile_skipped", 1)
+			return
+		}
+		oneRun, n, _, err := applyEditAst(src, path, both)
+		if err != nil {
+			fail(t, "C19", "edit-failed:combined", "%v\n%s", err, describe())
+		}
+		j1, ast1, err := callGraphJSON(oneRun, path)
+		if err != nil {
+			fail(t, "C19", "edited-does-not-compile:combined", "the edits applied in one run give a program that does not compile: %v\n%s\n--- one run\n%s\n--- two runs\n%s", err, describe(), oneRun, twoRuns)
+		}
+		if j1 != j2 || !ast1.EquivalentCall(ast2) || !ast2.EquivalentCall(ast1) {
+			fail(t, "C19", "combined-differs-from-sequential", "one run and two runs give different programs\n%s\n--- one run\n%s\n--- two runs\n%s", describe(), oneRun, twoRuns)
+		}
+		aliased := false
+		for _, pl := range prog.Pipelines {
+			for _, c := range pl.Calls {
+				if c.Callee == target && c.Id != c.Callee {
+					aliased = true
+				}
+			}
+		}
+		classes := []string{"combined", "combined:" + kind}
+		if aliased {
+			classes = append(classes, "combined:aliased-call")
+		}
+		stats.Case("C19", n >= 2, stats.Digest("combined", src, target, kind, param), classes, func() any {
+			return map[string]any{"kind": "combined edits", "rename": target + " -> " + newName, "second": kind + " " + newName + "." + param, "changes": n}
+		})
+	})
+}
